@@ -87,6 +87,10 @@ def plan(tier):
     for a in range(len(CONFIGS)):
         for b in range(len(CONFIGS)):
             shards.append(("iso", (a, b), fresh, None))
+    for a in range(len(XCFGS)):
+        for b in range(len(XCFGS)):
+            if a != b:
+                shards.append(("xcfg", a, b, None))
     if tier == "thorough":
         for a, b, c in itertools.product(range(len(CONFIGS)), repeat=3):
             if len({a, b, c}) >= 2:
@@ -95,8 +99,12 @@ def plan(tier):
         "shards": shards,
         "rule": "(a) all programs of length 1..3 over a %d-item ARM and a %d-item Thumb menu x every prefix point x "
                 "{fresh instance, 6 dirty instances}; (b) all interleavings of 2 (thorough: also 3) instances x 3 steps x "
-                "every construction position x all ordered configuration tuples x program pairs; "
-                "state = (program, prefix, instance history) resp. (schedule)" % (len(ARM_MENU), len(THUMB_MENU)),
+                "every construction position x all ordered configuration tuples x program pairs; (c) for every ordered "
+                "pair of %d configurations (architecture versions 4..7, extensions, profiles): every harvested instruction "
+                "word and its S-bit variant x 3 flag/SCTLR backgrounds stepped on an instance of the first configuration "
+                "and then on an instance of the second, in one fresh interpreter process, against the second instance "
+                "alone in another fresh process; "
+                "state = (program, prefix, instance history) resp. (schedule)" % (len(ARM_MENU), len(THUMB_MENU), len(XCFGS)),
         "bounds": {"program_length": L, "steps_per_program": "program length + %d (handlers at the vectors return into the program)" % EXTRA_STEPS, "configs": CONFIGS, "instances": 2 if tier == "quick" else "2 and 3",
                    "interleavings_2x3": 20, "interleavings_3x2": 90},
         "exhaustive": True,
@@ -174,6 +182,8 @@ def run_shard(arg):
         snap_shard(res, arg[1], arg[2], arg[3])
     elif kind == "order":
         order_shard(res, arg[1])
+    elif kind == "xcfg":
+        xcfg_shard(res, arg[1], arg[2])
     else:
         iso_shard(res, arg[1], arg[2])
     return res.as_dict()
@@ -286,6 +296,94 @@ def order_shard(res, iset):
     res.sample({"order_check": iset, "programs": len(progs)})
 
 
+# ------------------------------------------------------------------------------------------------ (c)
+# configurations whose differences the opcodes consult at execution time (version rules, profiles, extensions)
+XCFGS = [
+    {"arch_version": 4},
+    {"arch_version": 5},
+    {},
+    {"arch_version": 7, "have_security_ext": False},
+    {"arch_version": 7, "memory_system_architecture": "VMSA", "have_virt_ext": True, "have_lpae": True},
+    {"arch_version": 7, "is_armv7r_profile": True},
+]
+# (NZCV, bits OR-ed into SCTLR): SCTLR<19> is DZ on the R profile and WXN elsewhere
+XBACKGROUNDS = [(0b0000, 0), (0b0011, 1 << 19), (0b1111, 0)]
+
+
+def xcfg_words():
+    """Every harvested instruction word and its bit-20 (S bit of most 32-bit encodings) variant - the oracle is
+    differential, so a variant need not be a valid or predictable instruction."""
+    from .. import isa
+    out, seen = [], set()
+    for t, ol, w, cname in isa.harvest_words():
+        for v in ((w, w ^ (1 << 20)) if ol == 32 else (w,)):
+            k = (t, ol, v)
+            if k not in seen:
+                seen.add(k)
+                out.append((t, ol, v, cname))
+    return out
+
+
+def xcfg_run(a, b):
+    """In THIS process: for every word and background, step an instance of configuration a (if a >= 0) and then an
+    instance of configuration b from equal prepared states; returns b's outcome + post-state digest per case."""
+    from .. import isa
+    envs = []
+    for ci in ((a, b) if a >= 0 else (b,)):
+        cpu, plan, base = isa.std_cpu(**XCFGS[ci])
+        envs.append((cpu, plan, base, plan.index["cpsr"], plan.index["sctlr"]))
+    out = []
+    for t, ol, w, cname in xcfg_words():
+        for nzcv, sctlr_or in XBACKGROUNDS:
+            last = None
+            for cpu, plan, base, icpsr, isctlr in envs:
+                regs = list(base[0])
+                regs[icpsr] = (regs[icpsr] & 0x0FFFFFFF) | (nzcv << 28)
+                regs[isctlr] |= sctlr_or
+                plan.restore((tuple(regs), base[1]))
+                isa.place(cpu, w, bool(t), ol)
+                o = machine.step(cpu)
+                last = [list(map(str, o[:3])), digest(plan.snapshot())]
+            out.append(last)
+    return out
+
+
+def xcfg_shard(res, a, b):
+    import json
+    import os
+    import subprocess
+    import sys
+
+    def fresh(x, y):
+        p = subprocess.run([sys.executable, "-B", "-m", "armmc.checks.c20", "xcfg", str(x), str(y)], capture_output=True,
+                           cwd=os.path.dirname(os.path.dirname(os.path.dirname(__file__))),
+                           env=dict(os.environ, PYTHONHASHSEED="0"))
+        lines = p.stdout.decode().strip().splitlines()
+        if p.returncode != 0 or not lines:
+            raise RuntimeError("xcfg subprocess failed: %s" % p.stderr.decode()[-400:])
+        return json.loads(lines[-1])
+
+    pair = fresh(a, b)
+    solo = fresh(-1, b)
+    cases = [(wd, bg) for wd in xcfg_words() for bg in XBACKGROUNDS]
+    if not (len(pair) == len(solo) == len(cases)):
+        raise RuntimeError("xcfg: trace lengths differ")
+    for (wd, bg), x, y in zip(cases, pair, solo):
+        res.cases += 1
+        res.transitions += 2
+        res.add_state(hash((a, b, wd[:3], bg)))
+        res.outcome("cross-config-pair")
+        if x != y:
+            t, ol, w, cname = wd
+            res.fail("step-depends-on-an-earlier-instance-of-another-configuration (%s)" % cname,
+                     "%s word %#x (%s, %d bit) NZCV=%s SCTLR|=%#x on configuration %r: %r alone in a fresh process, %r "
+                     "after an instance of configuration %r stepped the same word in the same process" % (
+                         cname, w, "Thumb" if t else "ARM", ol, format(bg[0], "04b"), bg[1], XCFGS[b], y, x, XCFGS[a]),
+                     {"first_config": a, "second_config": b, "thumb": bool(t), "olen": ol, "word": w, "nzcv": bg[0],
+                      "sctlr_or": bg[1]})
+    res.sample({"xcfg": [XCFGS[a], XCFGS[b]], "cases": len(cases)})
+
+
 # ------------------------------------------------------------------------------------------------ (b)
 ISO_PROGS = [
     ("arm", (2, 7, 1)),        # unaligned LDR, MOV pc (version dependent), ADDS
@@ -378,6 +476,12 @@ if __name__ == "__main__":
     import json
     import os
     import sys
+    if len(sys.argv) == 4 and sys.argv[1] == "xcfg":
+        real = sys.stdout
+        sys.stdout = open(os.devnull, "w")
+        r_ = xcfg_run(int(sys.argv[2]), int(sys.argv[3]))
+        real.write(json.dumps(r_) + "\n")
+        sys.exit(0)
     if len(sys.argv) == 4 and sys.argv[1] == "solo":
         real = sys.stdout
         sys.stdout = open(os.devnull, "w")
